@@ -12,7 +12,7 @@ import (
 
 // ---- E4: all sequences of the per-request accessors on one request ----
 
-var opNames = []string{"RouteInfo", "ContentType", "ResponseFormat", "Authorize", "BindAndValidate", "ResetAuth"}
+var opNames = []string{"RouteInfo", "ContentType", "ResponseFormat", "Authorize", "BindAndValidate", "ResetAuth", "ResponseFormat(offers reversed)"}
 
 // HistCase is the replayable form of one history.
 type HistCase struct {
@@ -29,6 +29,9 @@ func histRequests() []reqSpec {
 		{Name: "anonymous-allowed", Method: "GET", Target: "/api/maybe/88?q=theta", Headers: map[string]string{"Accept": "application/json"}},
 		{Name: "unacceptable-accept", Method: "POST", Target: "/api/items/13", Headers: map[string]string{"Content-Type": "application/json", "X-Key": "good-n", "Accept": "image/png"}, Body: `{"v":"N"}`},
 		{Name: "invalid-param", Method: "GET", Target: "/api/items/notanumber", Headers: map[string]string{"X-Key": "good-h", "Accept": "application/json"}},
+		{Name: "no-accept-header", Method: "GET", Target: "/api/items/78?q=na", Headers: map[string]string{"X-Key": "good-na"}},
+		{Name: "empty-accept-header", Method: "GET", Target: "/api/list?q=ea", Headers: map[string]string{"X-Key": "good-ea", "Accept": ""}},
+		{Name: "static-unsecured-body", Method: "POST", Target: "/api/plain?q=sb", Headers: map[string]string{"Content-Type": "text/plain", "Accept": "*/*"}, Body: "static body"},
 		{Name: "no-security", Method: "PUT", Target: "/api/open/12", Headers: map[string]string{"Content-Type": "text/plain", "Accept": "text/plain"}, Body: "open body"},
 	}
 }
@@ -129,8 +132,15 @@ func runHistory(s *site, rs reqSpec, ops []int, keys *[]string) (string, string)
 					r = rr
 				}
 			}
-		case 2: // ResponseFormat
-			f, rr := ctx.ResponseFormat(r, m.route.Produces)
+		case 2, 6: // ResponseFormat, asked with the route's offers or with the same offers in reverse order
+			offers := m.route.Produces
+			if op == 6 {
+				offers = make([]string, len(m.route.Produces))
+				for i, o := range m.route.Produces {
+					offers[len(offers)-1-i] = o
+				}
+			}
+			f, rr := ctx.ResponseFormat(r, offers)
 			if m.format != nil {
 				if rr != r {
 					return "memo/request-not-reused", at + ": memo hit must return the request it was given"
